@@ -10,6 +10,7 @@ package c13
 import (
 	"fmt"
 	"strings"
+	"time"
 
 	"seehuhn.de/go/sfnt/verifharness/vlib"
 )
@@ -65,16 +66,25 @@ func emit(run *vlib.Run, line string, nontrivial bool, labels ...string) result 
 	return r
 }
 
-// safely runs f and reports whether it panicked.
-func safely(f func()) (panicked bool, what string) {
-	defer func() {
-		if e := recover(); e != nil {
-			panicked = true
-			what = fmt.Sprint(e)
-		}
+// safely runs f and reports whether it panicked or did not come back within
+// 20 seconds (the goroutine of a hanging call is abandoned).
+func safely(f func()) (bad bool, what string) {
+	done := make(chan string, 1)
+	go func() {
+		defer func() {
+			if e := recover(); e != nil {
+				done <- "panic: " + fmt.Sprint(e)
+			}
+		}()
+		f()
+		done <- ""
 	}()
-	f()
-	return false, ""
+	select {
+	case w := <-done:
+		return w != "", w
+	case <-time.After(20 * time.Second):
+		return true, "hang: no result after 20 s"
+	}
 }
 
 func hexList(bs [][]byte) vlib.Sx {
